@@ -70,6 +70,35 @@ class Cx:
                 self._fb["syn"] = json.load(fh)
         return self._fb["syn"]
 
+    def witness(self):
+        """Results of the compile-fail witnesses + path of the probe crate's MIR facts."""
+        if "witness" not in self._fb:
+            self._fb["witness"] = factsmod.ensure_witness(self.facts_dir)
+        return self._fb["witness"]
+
+    def probe(self):
+        self.witness()
+        p = os.path.join(self.facts_dir, "witness", "witness.lib.jsonl")
+        if not os.path.exists(p):
+            raise factsmod.CheckError("probe crate MIR facts missing: " + p)
+        if "probe" not in self._fb:
+            self._fb["probe"] = FactBase([p])
+        return self._fb["probe"]
+
+    def witness_obligations(self, rule, names):
+        """One obligation per witness: the violating program must fail to compile with the stated error
+        code AND its twin (same program minus the offending line) must compile."""
+        w = self.witness()["tests"]
+        for n, what in names:
+            r = w.get(n)
+            if r is None or "witness" not in r or "twin" not in r:
+                raise factsmod.CheckError("witness %s did not run (witness crate broken?)" % n)
+            if r["twin"] != "ok":
+                raise factsmod.CheckError("twin of witness %s no longer compiles: the witness is meaningless; "
+                                          "fix /verif/witness" % n)
+            self.ob(rule, n, r["witness"] == "ok", what + " (compile-fail witness: the violating program now "
+                    "type-checks)" if r["witness"] != "ok" else what, "witness/src/lib.rs")
+
     def ts(self):
         p = os.path.join(self.facts_dir, "ts", "ts.json")
         if not os.path.exists(p):
